@@ -210,17 +210,19 @@ func kmeansInternal(vectors [][]float32, k int, distance Distance, maxIter int) 
 		// ───────────────────────────────────────────────────────────────────────
 
 		// Initialize accumulators
-		clusterSums := make([][]float32, k)
+		// Sums are kept in float64: a float32 sum of many large coordinates loses the
+		// low-order bits and the mean can land outside the range of the summands.
+		clusterSums := make([][]float64, k)
 		clusterSizes := make([]int, k)
 		for i := range clusterSums {
-			clusterSums[i] = make([]float32, dimensions)
+			clusterSums[i] = make([]float64, dimensions)
 		}
 
 		// Single pass: accumulate sums for each cluster - O(n × dim)
 		for vectorIdx, assignedCluster := range vectorToClusterMapping {
 			if assignedCluster != UnassignedCluster {
 				for dimIdx := range vectors[vectorIdx] {
-					clusterSums[assignedCluster][dimIdx] += vectors[vectorIdx][dimIdx]
+					clusterSums[assignedCluster][dimIdx] += float64(vectors[vectorIdx][dimIdx])
 				}
 				clusterSizes[assignedCluster]++
 			}
@@ -230,7 +232,7 @@ func kmeansInternal(vectors [][]float32, k int, distance Distance, maxIter int) 
 		for clusterIdx := range centroids {
 			if clusterSizes[clusterIdx] > 0 {
 				for dimIdx := range centroids[clusterIdx] {
-					centroids[clusterIdx][dimIdx] = clusterSums[clusterIdx][dimIdx] / float32(clusterSizes[clusterIdx])
+					centroids[clusterIdx][dimIdx] = float32(clusterSums[clusterIdx][dimIdx] / float64(clusterSizes[clusterIdx]))
 				}
 			}
 			// Note: If clusterSize==0 (empty cluster), we keep the old centroid position
